@@ -157,6 +157,17 @@ def atomic_write_octave(
                 "path": target_path,
             }
 
+    # The file is written as UTF-8: text that cannot be encoded (a lone surrogate) is refused
+    # here, before a parent directory or a temporary file is created.
+    try:
+        content.encode("utf-8")
+    except UnicodeEncodeError as e:
+        return {
+            "status": "error",
+            "error": f"Write error: {str(e)}",
+            "path": target_path,
+        }
+
     # Step 4: Atomic write
     try:
         # Ensure parent directory exists
